@@ -284,11 +284,11 @@ func cmdDrive(args []string) {
 		must = []string{"fired.short+err", "fired.zero+err", "fired.full+err", "fired.always", "fired.transient", "fired.short+nil", "probe.fault_beyond_4096", "probe.fault_at_offset_0", "probe.fault_on_last_sink_call", "control_runs",
 			"errkind.temporary", "errkind.timeout", "errkind.shortwrite", "errkind.eof", "errkind.closedpipe", "errkind.epipe", "errkind.deadline"}
 	case "C06":
-		must = []string{"probe.rerenders", "probe.stale_tree_renders", "probe.ops_after_failed_op", "probe.same_doc_back_to_back", "op.Convert", "op.PkgConvert", "op.Parse", "op.Render", "op.ParseRender"}
+		must = []string{"probe.rerenders", "probe.stale_tree_renders", "probe.ops_after_failed_op", "probe.same_doc_back_to_back", "probe.renders_by_other_renderer", "probe.renders_after_other_renderer", "op.Convert", "op.PkgConvert", "op.Parse", "op.Render", "op.ParseRender"}
 	case "C15":
 		must = []string{"probe.c15_docs_with_slug_collision", "probe.c15_docs_with_suffix_collision", "probe.ops_after_failed_op", "c15.docs_with_2plus_headings", "probe.preemptions", "sched.c15_ops_judged"}
 	case "C07":
-		must = []string{"probe.once_contended", "probe.once_blocked", "probe.preemptions", "probe.mid_init_switch", "cold_start_runs", "fresh_instance_runs", "overlap.parse|parse", "overlap.parse|render", "overlap.render|render"}
+		must = []string{"probe.once_contended", "probe.once_blocked", "probe.preemptions", "probe.mid_init_switch", "cold_start_runs", "fresh_instance_runs", "overlap.parse|parse", "overlap.parse|render", "overlap.render|render", "op.AuxConvert", "op.Convert", "op.ParseRender", "op.PkgConvert", "op.ParseOnly", "op.RenderPre"}
 	}
 	if len(total.Violations) == 0 {
 		for _, k := range must {
@@ -413,7 +413,7 @@ func writeEvidence(verifDir, prop, tier string, seed uint64, plan tierPlan, st *
 		cov["groups_with_every_offset_enumerated"] = st.Counters["groups_exhaustive"]
 		cov["explanation_exhaustive"] = "within each of the groups_with_every_offset_enumerated groups the (offset k) grid 0..len(R) and the (call j) grid are enumerated completely; the set of documents is a sample"
 	case "C06":
-		cov["rule"] = "exploration: seeded histories (1..N operations: Convert, package-level Convert, Parse, Render of fresh/re-rendered/stale trees, Parse+Render, faulted calls in the odd-numbered runs) on one long-lived instance per run; every fault-free operation is compared byte-for-byte with a fresh instance converting the same source alone (memoised, 2% recomputed). Non-trivial = history with >=2 operations; distinct by hash of (configuration, operations, documents)."
+		cov["rule"] = "exploration: seeded histories (1..N operations: Convert, package-level Convert, Parse, Render of fresh/re-rendered/stale trees by the instance's own Renderer and by the Renderer of an instance whose renderer-side configuration differs, Parse+Render, conversions by other instances, faulted calls in the odd-numbered runs) on one long-lived instance per run; every fault-free operation is compared byte-for-byte with a fresh instance converting the same source alone (memoised, 2% recomputed). Non-trivial = history with >=2 operations; distinct by hash of (configuration, operations, documents)."
 		cov["operations"] = ops
 		cov["distinct_configurations"] = cfgs
 	case "C15":
@@ -424,8 +424,9 @@ func writeEvidence(verifDir, prop, tier string, seed uint64, plan tierPlan, st *
 		cov["workers_per_run"] = workers
 		cov["phase_overlap_at_switch_points"] = overlap
 	case "C07":
-		cov["rule"] = "exploration: 2..8 real goroutines run scripts on one shared Markdown (or its Parser / Renderer separately) under -race; the simulator releases exactly one goroutine at a time at every seam call (Context, IDs, Reader, BufWriter, sink) and at the 12 hook sites of the three sync.Once initialisations; who runs next comes from a seeded policy (random, PCT, round-robin, run-to-block, herd) or an explicit decision list. Oracles: per-call equality with the call run alone on a fresh instance, race detector reports (hand-off invisible to the detector), panics, deadlock. Non-trivial = schedule with at least one preemption (switch away from a worker that could continue); distinct by hash of the (worker, site) event sequence, configuration and document sizes."
+		cov["rule"] = "exploration: 2..8 real goroutines run scripts on one shared Markdown (or its Parser / Renderer separately; some workers also build and use an instance of their own next to it) under -race; the simulator releases exactly one goroutine at a time at every seam call (Context, IDs, Reader, BufWriter, sink) and at the 12 hook sites of the three sync.Once initialisations; who runs next comes from a seeded policy (random, PCT, round-robin, run-to-block, herd) or an explicit decision list. Oracles: per-call equality with the call run alone on a fresh instance, race detector reports (hand-off invisible to the detector), panics, deadlock. Non-trivial = schedule with at least one preemption (switch away from a worker that could continue); distinct by hash of the (worker, site) event sequence, configuration and document sizes."
 		cov["policies"] = policies
+		cov["operations"] = ops
 		cov["workers_per_run"] = workers
 		cov["phase_overlap_at_switch_points"] = overlap
 		cov["distinct_preempted_resumed_site_pairs"] = pairs
